@@ -1,7 +1,7 @@
 SPECIFICATION Spec
 CONSTANTS
-  NoGitRec = TRUE
+  NoGitRec = FALSE
   SortedFlags = TRUE
   Emit = FALSE
-INVARIANTS WithinDocumented Deterministic LnRight
+INVARIANTS LnRight
 CHECK_DEADLOCK FALSE
